@@ -21,7 +21,9 @@ CHECK = dict(
           "indices from the beacon node's duties by verifying the aggregate): every execution with <=1 deviation (quick) / <=2, <=3 for n=3 (thorough) at any "
           "step; oracle at every attestation the real broadcaster submits to its beacon node (attributed to the validator it names the way the beacon node does: before electra committee index "
           "and position bit, from electra on the validator index, else the committee bits), at every Broadcaster.Broadcast and AggSigDB.Store on every node: signature valid under THAT validator's group "
-          "key for the object's own signing root, one signing root per duty and validator across all nodes and time",
+          "key for the object's own signing root, one signing root per duty and validator across all nodes and time. "
+          "Wiring variants (app/app.go): aggsigdb v2 with plain core.Wire (as before) and, in four (thorough: five more) configurations, the production default - aggsigdb v1 (NewMemDB actor) and "
+          "core.WithAsyncRetry(retry.New(deadlineFunc)), i.e. fetch, participate, propose, the parsigex broadcast and the beacon-node broadcast run asynchronously and are retried until the duty deadline",
     trusted="fakenet (the real p2p.Send and stream handlers run against it), stub scheduler/fetcher/validator client/beacon spec; real BLS and "
             "secp256k1 throughout",
     rule="DFS over deviation placements with prefix replay; non-trivial class = (n, inputs, deviations used, objects broadcast)",
